@@ -11,7 +11,7 @@ RULE = ("Hypothesis-generated histories of 1-4 reaction steps (cellgen.py): each
         "(formulas/phase names, lists or 'in n steps', mol/mmol/umol), EQUILIBRIUM_PHASES (1-4, targets, amounts incl. 0, "
         "dissolve_only/precipitate_only, alternative formula), EXCHANGE (explicit incl. HX / -equilibrate), SURFACE (no_edl, DDL, "
         "-donnan, -diffuse_layer, only_counter_ions; defined or equilibrated), GAS_PHASE (fixed P / fixed V), SOLID_SOLUTIONS "
-        "(ideal, binary Guggenheim), KINETICS (5 rate laws with -formula, cvode/RK), newly defined or carried over through "
+        "(ideal, binary Guggenheim), KINETICS (5 rate laws with -formula, Runge-Kutta), newly defined or carried over through "
         "SAVE/COPY, INCREMENTAL_REACTIONS on/off, batch or RUN_CELLS, optional REACTION_TEMPERATURE; phreeqc.dat, wateq4f.dat, "
         "pitzer.dat. Inventories before/after are computed from DUMP text with formulas from the database text; every element "
         "(incl. H, O) and the net charge must close to 1e-6 of the system inventory (floor 1e-12 mol), and no phase / gas / "
@@ -30,8 +30,9 @@ ASSUMPTIONS = ["DUMP -all writes every stored reactant with >=14 significant dig
                "surfaces (known finding: diffuse-layer water created at first contact; they are defined with -equilibrate instead), two SOLID_SOLUTIONS blocks of one history "
                "sharing a solid-solution name (known finding: the second is solved with the phases of the first), steps with a solid "
                "solution that converge only in the engine's retry 'Adding inequality to make concentrations greater than zero' "
-               "(known finding: mass leaks; recognised by that warning text after the run), CVODE for rates that overshoot "
-               "the reactant, kinetic uptake of substances not abundantly present in every solution (engine does not return)"]
+               "(known finding: mass leaks; recognised by that warning text after the run), KINETICS -cvode true (the engine does "
+               "not return when a CVODE sub-step cannot be converged: every kinetic block is integrated with Runge-Kutta), kinetic "
+               "uptake of substances not abundantly present in every solution (engine does not return)"]
 TECHNIQUE = "property-based testing (Hypothesis) with an independent inventory oracle over DUMP text"
 LEVEL_TEXT = ("Exploration: thousands of generated cell histories per run; for every step every element (incl. H, O) and the net "
               "charge are summed over all reservoirs of the before- and after-dumps and compared to 1e-6 relative; no amount negative.")
@@ -272,7 +273,7 @@ def check_case(case, ctx):
         if isinstance(s.get("kin"), dict):
             classes.append("kin_cvode" if s["kin"]["cvode"] else "kin_rk")
             if s["kin"].get("cvode_forced_off"):
-                classes.append("excluded_trigger:cvode_on_overshooting_rate")
+                classes.append("excluded_trigger:cvode_requested_integrated_with_runge_kutta")
         if isinstance(s.get("reaction"), dict):
             classes.append("reaction_list" if "list" in s["reaction"] else "reaction_in_n_steps")
     classes = sorted(set(classes))
